@@ -111,9 +111,8 @@ def _method(args):
         kw = dict(g["valid"])
         kw.update(st)
         kw.update(bad)
-        if method == "store_object" and ("checksum" in bad) != ("checksum_algorithm" in bad) and \
-                (bad.get("checksum", 1) is None or bad.get("checksum_algorithm", 1) is None):
-            pass  # checksum without its algorithm or the reverse
+        if method == "store_object" and bad.get("checksum", 1) is None and bad.get("checksum_algorithm", 1) is None:
+            continue  # neither a checksum nor its algorithm: a valid call without validation data
         if not populated and any(v == "unknown-pid" for v in bad.values()):
             pass
         n += 1
